@@ -1,6 +1,6 @@
 """C13 — all memory goes through the supplied manager and is fully returned."""
 import json
-import lib, uris, c07, parsesuite
+import lib, uris, c07, parsesuite, qmlib
 from lib import enc, enc_s, dec, show
 
 PID = "C13"
@@ -60,14 +60,25 @@ def run(chk):
             if live != "0": chk.violation("%s block(s) outstanding after every object was released" % live, {"request": rq, "build": fl, "impl": o})
             elif bad != "0": chk.violation("a block was released twice, or a pointer released that the manager did not hand out", {"request": rq, "build": fl, "impl": o})
             if fl == "A": nontrivial.add(rq)
+    # (3) the query-list calls with the recording manager, against Model/QueryM.v: dissect + free list, compose + free of
+    # the string, dissect -> compose -> free; a sample of failure positions (the full enumeration is C14's)
+    qmdl = qmlib.build_model(); qcorr = []; by_op = {}
+    qcalls = qmlib.calls(chk, many=False)
+    nq = qmlib.explore(chk, exes, qmdl, qcalls, False, nontrivial, qcorr, by_op)
+    nq += qmlib.explore(chk, exes, qmdl, chk.rng.sample(qcalls, min(len(qcalls), 60 if q else 600)), True, nontrivial, qcorr, by_op)
+    if qcorr and not chk.violations:
+        rq, fl, o, m = qcorr[0]
+        chk.violation("correspondence broken: memory-tier model of the query functions and implementation disagree on lists, ledger or allocation trace (%d cases)" % len(qcorr),
+                      {"correspondence": qmlib.CORR, "request": rq, "build": fl, "impl": o, "model": m}, found_input=False)
     if corr and not chk.violations:
         rq, fl, o, m = corr[0]
         chk.violation("correspondence broken: memory-tier model and implementation disagree on objects, ledger or allocation trace (%d cases)" % len(corr),
                       {"correspondence": "Model/Mem.v, ParseM.v, OpsM.v vs src", "request": rq, "build": fl, "impl": o, "model": m}, found_input=False)
     chk.cov["distinct_nontrivial"] = len(nontrivial)
     chk.cov["rule"] = ("(1) interposed C library allocator + pool-backed custom manager: battery of all nine manager-taking calls (parse, free members, resolve, create reference, normalize, make owner, dissect, compose, free query list) on generated URIs: C library silent, pool empty afterwards, exact pointers, five incomplete managers rejected with code 10 before any allocation, NULL manager uses the C library; "
-                       "(2) random histories and single operations with the recording manager: ledger empty after release, frees idempotent, full allocation trace equal to the memory-tier model's")
-    chk.cov["distribution"] = {"battery_requests": len(ireq), "histories": len(hreq), "single_operations": len(ops)}
+                       "(2) random histories and single operations with the recording manager: ledger empty after release, frees idempotent, full allocation trace equal to the memory-tier model's; "
+                       "(3) dissect query + free query list, compose query + free of the string, dissect -> compose -> free with the recording manager: trace of the call and of the release equal to the memory-tier model's (Model/QueryM.v), nothing outstanding after the matching release, no bad release, inputs unchanged")
+    chk.cov["distribution"] = {"battery_requests": len(ireq), "histories": len(hreq), "single_operations": len(ops), "query_requests": nq, "query_by_operation(A)": by_op}
     chk.cov["samples"] = [{"request": ireq[0]}, {"request": ops[1]}]
     chk.assumptions = ["'nothing bypasses the manager' is observed (symbol interposition), not proved; the theorem is the ledger invariant of the memory-tier model"]
     return chk.finish(proofs)
@@ -81,6 +92,8 @@ def replay(path):
         ip = lib.build_impl(flavours=("A", "W"), driver="ipose.c", tag="ipose")
         for fl, exe in ip.items(): print("ipose %s:" % fl, lib.run_lines(exe, [rq])[0])
         return 0
-    print("model  :", lib.run_lines(mdl, [rq])[0])
-    for fl, exe in exes.items(): print("impl %-7s:" % fl, lib.run_lines(exe, [rq])[0])
+    if qmlib.is_query(rq): mdl = qmlib.build_model()
+    for fl, exe in exes.items():
+        print("model %-7s:" % fl, lib.run_lines(mdl, [rq], env={"DRV_CSIZE": "4" if fl.startswith("W") else "1"})[0])
+        print("impl  %-7s:" % fl, lib.run_lines(exe, [rq])[0])
     return 0
